@@ -1,0 +1,110 @@
+//! Cooperative scheduler for two real threads (hook H5).  `yp(label)` is called at yield points
+//! placed in the crate where the running thread holds no lock that the other thread needs.  A
+//! thread that registered with `enter(id, sched)` stops at every yield point until the
+//! controller grants it the next step; every other thread passes through at no cost.
+
+use std::{
+  cell::RefCell,
+  sync::{Arc, Condvar, Mutex},
+  time::Duration,
+};
+
+#[derive(Default)]
+struct Inner {
+  turn: Option<usize>,
+  at: [Option<&'static str>; 2],
+  done: [bool; 2],
+}
+
+#[derive(Default)]
+pub struct Sched {
+  inner: Mutex<Inner>,
+  cv: Condvar,
+}
+
+#[derive(Debug, Clone, PartialEq, Eq)]
+pub enum Step {
+  /// the thread ran and stopped at this yield point
+  At(&'static str),
+  /// the thread's body returned
+  Done,
+  /// the thread did not reach a yield point within the time limit
+  Hung,
+}
+
+thread_local! {
+  static ME: RefCell<Option<(usize, Arc<Sched>)>> = const { RefCell::new(None) };
+}
+
+impl Sched {
+  pub fn new() -> Arc<Self> {
+    Arc::new(Self::default())
+  }
+
+  /// controller: let thread `id` run up to its next yield point
+  pub fn step(&self, id: usize) -> Step {
+    let mut g = self.inner.lock().unwrap();
+    if g.done[id] {
+      return Step::Done;
+    }
+    g.at[id] = None;
+    g.turn = Some(id);
+    self.cv.notify_all();
+    let (g, timeout) = self
+      .cv
+      .wait_timeout_while(g, Duration::from_secs(5), |i| {
+        i.at[id].is_none() && !i.done[id]
+      })
+      .unwrap();
+    if timeout.timed_out() {
+      return Step::Hung;
+    }
+    if g.done[id] {
+      Step::Done
+    } else {
+      Step::At(g.at[id].unwrap())
+    }
+  }
+
+  /// where thread `id` is waiting (None: running or not started)
+  pub fn where_is(&self, id: usize) -> Option<&'static str> {
+    self.inner.lock().unwrap().at[id]
+  }
+
+  fn arrive(&self, id: usize, label: &'static str) {
+    let mut g = self.inner.lock().unwrap();
+    g.at[id] = Some(label);
+    g.turn = None;
+    self.cv.notify_all();
+    let _g = self.cv.wait_while(g, |i| i.turn != Some(id)).unwrap();
+  }
+
+  fn finish(&self, id: usize) {
+    let mut g = self.inner.lock().unwrap();
+    g.done[id] = true;
+    g.turn = None;
+    self.cv.notify_all();
+  }
+}
+
+/// called by a scheduled thread at the start of its body: stops at the first yield point "start"
+pub fn enter(id: usize, s: Arc<Sched>) {
+  ME.with(|m| *m.borrow_mut() = Some((id, s.clone())));
+  s.arrive(id, "start");
+}
+
+/// called by a scheduled thread when its body ends
+pub fn leave() {
+  let me = ME.with(|m| m.borrow_mut().take());
+  if let Some((id, s)) = me {
+    s.finish(id);
+  }
+}
+
+/// yield point
+pub fn yp(label: &'static str) {
+  let me = ME.with(|m| m.borrow().clone());
+  if let Some((id, s)) = me {
+    s.arrive(id, label);
+  }
+}
